@@ -199,7 +199,10 @@ def st_table(draw, name="t0", max_rows=14, min_rows=0, index_kinds=("range", "in
     if extra_cols:
         opt = [["i", "int"], ["b", "bool"], ["c", "cat"], ["d", "dt"], ["k2", "int"]]
         mask = draw(st.integers(0, 31))
-        cols += [c for j, c in enumerate(opt) if mask >> j & 1]
+        # tables other than t0 get their own names for the optional columns, so that joins see
+        # un-suffixed one-sided columns as well as colliding ones (k, f, g, s are shared)
+        tag = "" if name == "t0" else name[1:]
+        cols += [[c[0] + tag, c[1]] for j, c in enumerate(opt) if mask >> j & 1]
     if rid:
         cols.append(["rid", "int"])
     rows = []
